@@ -1,7 +1,9 @@
 package drv
 
 import (
+	"runtime"
 	"sort"
+	"strings"
 	"sync"
 
 	"github.com/mit-pdos/go-nfsd/fstxn"
@@ -15,6 +17,7 @@ type LockEv struct {
 	Inum uint64
 	G    int64  // goroutine id (only when wanted)
 	What string // acc: the inode method entered
+	Ctx  string // want/got: "apply" when issued from dir.Apply (children listed under the directory lock)
 }
 
 // LockMon observes lock events of all servers in this process (the hook is a
@@ -31,8 +34,9 @@ type LockMon struct {
 	// optional gate called (without mu) before an acquisition; may block
 	Gate func(txn int, inum uint64)
 	// optional yield injection at hook points
-	Yield func(ev string)
-	WantG bool
+	Yield   func(ev string)
+	WantG   bool
+	WantCtx bool
 }
 
 var Mon = &LockMon{txnIds: map[*fstxn.FsTxn]int{}, held: map[uint64]int{}}
@@ -64,6 +68,9 @@ func (m *LockMon) hook(ev string, op *fstxn.FsTxn, inum uint64) {
 		if m.WantG {
 			e.G = goid()
 		}
+		if m.WantCtx && (ev == "want" || ev == "got") && inApply() {
+			e.Ctx = "apply"
+		}
 		m.evs = append(m.evs, e)
 	}
 	gate, yield := m.Gate, m.Yield
@@ -85,6 +92,21 @@ func (m *LockMon) Acc(inum uint64, what string) {
 		m.evs = append(m.evs, LockEv{Seq: m.seq, Ev: "acc", Inum: inum, G: g, What: what})
 	}
 	m.mu.Unlock()
+}
+
+func inApply() bool {
+	pc := make([]uintptr, 24)
+	n := runtime.Callers(3, pc)
+	fr := runtime.CallersFrames(pc[:n])
+	for {
+		f, more := fr.Next()
+		if strings.HasSuffix(f.Function, "dir.Apply") {
+			return true
+		}
+		if !more {
+			return false
+		}
+	}
 }
 
 // Reset forgets all state (call when starting a fresh server after abandoning a wedged one).
